@@ -15,6 +15,8 @@ import xml.etree.ElementTree as ET
 from typing import Any, Dict, List, Optional, Sequence, Tuple
 
 from .. import tlc
+from .. import watchdog
+from ..watchdog import Stalled, bounded
 from ..common import Verdict, rng, use_repo
 
 use_repo()
@@ -200,9 +202,12 @@ def run_stream(pieces: List[Tuple[str, str]], cuts: Sequence[int], thr: int) -> 
         raised = ""
         try:
             buf.append(piece)
-            buf.process(cb)
-        except Watch as e:
+            with bounded(30, f"Buffer.process on {len(text)} characters"):
+                buf.process(cb)
+        except (Watch, Stalled) as e:
             raised = "non-termination: " + str(e)
+            if watchdog.fired_total >= 3:
+                raise Stalled(str(e) + " (third occurrence: the check stops here)")
         except Exception as e:
             raised = f"{type(e).__name__}: {e}"
         ids, genuine = [], []
